@@ -73,18 +73,19 @@ Theorem sensitivity_transform_spec : ∀ C n ord PC T W,
 Proof. exact sensitivity_transform_model_spec. Qed.
 Print Assumptions sensitivity_transform_spec.
 (* ... with PC = logic.popcount(len(startpoints)) as modelled and proved correct in C13 (Model/Logic.v, Proofs/LogicPopAll.v): no
-   popcount assumption is left; W <= number of popcount outputs says that sen_out_o reads an output bit that exists *)
+   assumption about the popcount circuit is left (its correctness, its input interface, and that it has the clog2(m+1) output
+   bits sen_out reads are all derived) *)
 Theorem sensitivity_transform_spec_popcount : ∀ C n ord PC T W,
-  comb (c_g C) → Logic.popcount (length ord) = Ok PC → W ≤ size (outputs (c_g PC)) →
+  comb (c_g C) → Logic.popcount (length ord) = Ok PC →
   sensitivity_transform C n ord PC = Ok T → clog2 (length ord + 1) = Ok W →
   ∀ v, consistent (c_g T) v →
     (∀ s, s ∈ ord → v ("dif_out_" ++ s) = true ↔ flips (c_g C) n s v) ∧
     sen_bits v W = take_bits W (count (c_g C) n ord v).
-Proof. exact sensitivity_transform_popcount_spec. Qed.
+Proof. exact sensitivity_transform_popcount_full. Qed.
 Print Assumptions sensitivity_transform_spec_popcount.
-Theorem popcount_discharges : ∀ m PC W, Logic.popcount m = Ok PC → W ≤ size (outputs (c_g PC)) →
+Theorem popcount_discharges : ∀ m PC W, Logic.popcount m = Ok PC → clog2 (m + 1) = Ok W →
   pc_inputs (c_g PC) m ∧ popcount_correct (c_g PC) m W.
-Proof. intros m PC W H HW. split; [by apply popcount_pc_inputs|by apply popcount_pc_correct]. Qed.
+Proof. exact popcount_discharge. Qed.
 Print Assumptions popcount_discharges.
 Theorem sensitivity_model_shape : ∀ C n ord PC T W,
   comb (c_g C) → pc_inputs (c_g PC) (length ord) →
